@@ -15,7 +15,10 @@
      table) as clone_usersum_recursive / release_usersum_recursive do; AllocArray / GetArrayElem / SetArrayElem and the
      array builtins of plugin/builtin_functins.rs (len, split_head, split_tail, prepend, append, `$arityN`) work on
      Machine.arrays (`x_arr`).  Bvm/XMach.v holds the machine record and the operations that need no program.
-   * `strict` adds run-time checks the real VM does NOT make (DynSignature, DynReentry, DynOpenWrite, DynCellWidth; see
+   * `_mimium_schedule_at` (the scheduler plugin) reads its two arguments, resolves the closure and records the task in
+     `x_tasks`; the task queue and the execution of due tasks before a sample are not modelled (C11's subject).
+   * `strict` adds run-time checks the real VM does NOT make (DynSignature, DynReentry, DynOpenWrite, DynCellWidth,
+     DynElemWidth; see
      Bvm/Model.v `dynfault`); with strict = false this is a transcription of vm.rs and is what the correspondence check
      runs.  The compiler no longer emits Closure / Close / CallCls (mirgen lowers every lambda to MakeHeapClosure /
      CloseHeapClosure / CallIndirect): their semantics is transcribed but not exercised by the correspondence. *)
@@ -377,51 +380,64 @@ Section XExec.
     | XAllocArr d len es =>
         let (a', key) := arr_alloc (x_arr x) es (repeat 0%Z (nn (len * es))) in
         XNext 1 (xsput base (set_arr x a') d [key]) fl
-    | XGetArr d ar i =>
-        match xsget base x ar, xsget base x i with
-        | Some aw, Some iw =>
-            match arr_get (x_arr x) aw with
+    | XOld _ | XCallCls _ _ _ | XCallInd _ _ _ | XGetArr _ _ _ | XSetArr _ _ _ => XLUnsup UnsupInstr
+    end.
+
+  (* strict: the array's elem_word_size is the width the annotation gives for this program counter *)
+  Definition ew_ok (hint : option N) (ew : N) : bool :=
+    if strict then match hint with Some w => ew =? w | None => false end else true.
+
+  (* GetArrayElem(dst, arr, idx): the element (elem_word_size words, a run-time fact) is written at dst; the index is
+     clamped to the array (`as i64` saturates, then clamp(0, len - 1)) *)
+  Definition xgetarr (hint : option N) (base d ar i : N) (x : xmach) (fl : flocal) : xlres :=
+    match xsget base x ar, xsget base x i with
+    | Some aw, Some iw =>
+        match arr_get (x_arr x) aw with
+        | None => XLFault (Dyn DynHandle)
+        | Some adata =>
+            match arr_len adata with
             | None => XLFault (Dyn DynHandle)
-            | Some adata =>
-                match arr_len adata with
-                | None => XLFault (Dyn DynHandle)
-                | Some 0 =>
-                    (* an empty array reads as the zero element *)
-                    XNext 1 (xsput base x d (repeat 0%Z (nn (ar_ew adata)))) fl
-                | Some len =>
-                    let idx := Z.to_N (clampZ (a_trunc A iw) 0 (Z.of_N (len - 1))) in
-                    match rd_range (ar_data adata) (idx * ar_ew adata) (ar_ew adata) with
-                    | Some vs => XNext 1 (xsput base x d vs) fl
-                    | None => XLFault (Dyn DynHandle)
-                    end
-                end
+            | Some len =>
+                if negb (ew_ok hint (ar_ew adata)) then XLFault (Dyn DynElemWidth) else
+                if len =? 0 then
+                  (* an empty array reads as the zero element *)
+                  XNext 1 (xsput base x d (repeat 0%Z (nn (ar_ew adata)))) fl
+                else
+                  let idx := Z.to_N (clampZ (a_trunc A iw) 0 (Z.of_N (len - 1))) in
+                  match rd_range (ar_data adata) (idx * ar_ew adata) (ar_ew adata) with
+                  | Some vs => XNext 1 (xsput base x d vs) fl
+                  | None => XLFault (Dyn DynHandle)
+                  end
             end
-        | _, _ => XLFault StackReadOOB
         end
-    | XSetArr ar i v =>
-        match xsget base x ar, xsget base x i with
-        | Some aw, Some iw =>
-            match arr_get (x_arr x) aw with
+    | _, _ => XLFault StackReadOOB
+    end.
+
+  (* SetArrayElem(arr, idx, val): elem_word_size words are read at val *)
+  Definition xsetarr (hint : option N) (base ar i v : N) (x : xmach) (fl : flocal) : xlres :=
+    match xsget base x ar, xsget base x i with
+    | Some aw, Some iw =>
+        match arr_get (x_arr x) aw with
+        | None => XLFault (Dyn DynHandle)
+        | Some adata =>
+            match arr_len adata with
             | None => XLFault (Dyn DynHandle)
-            | Some adata =>
-                match arr_len adata with
-                | None => XLFault (Dyn DynHandle)
-                | Some 0 => XNext 1 x fl                            (* nothing to write into an empty array *)
-                | Some len =>
-                    let idx := Z.to_N (clampZ (a_trunc A iw) 0 (Z.of_N (len - 1))) in
-                    match xsget_range base x v (ar_ew adata) with
-                    | None => XLFault StackReadOOB
-                    | Some vs =>
-                        if idx * ar_ew adata + ar_ew adata <=? lenN (ar_data adata)
-                        then XNext 1 (set_arr x (sm_set (x_arr x) (kffi aw)
-                                                   (mkArr (ar_ew adata) (wr_range 0%Z (ar_data adata) (idx * ar_ew adata) vs)))) fl
-                        else XLFault (Dyn DynHandle)
-                    end
-                end
+            | Some len =>
+                if negb (ew_ok hint (ar_ew adata)) then XLFault (Dyn DynElemWidth) else
+                if len =? 0 then XNext 1 x fl                       (* nothing to write into an empty array *)
+                else
+                  let idx := Z.to_N (clampZ (a_trunc A iw) 0 (Z.of_N (len - 1))) in
+                  match xsget_range base x v (ar_ew adata) with
+                  | None => XLFault StackReadOOB
+                  | Some vs =>
+                      if idx * ar_ew adata + ar_ew adata <=? lenN (ar_data adata)
+                      then XNext 1 (set_arr x (sm_set (x_arr x) (kffi aw)
+                                                 (mkArr (ar_ew adata) (wr_range 0%Z (ar_data adata) (idx * ar_ew adata) vs)))) fl
+                      else XLFault (Dyn DynHandle)
+                  end
             end
-        | _, _ => XLFault StackReadOOB
         end
-    | XOld _ | XCallCls _ _ _ | XCallInd _ _ _ => XLUnsup UnsupInstr
+    | _, _ => XLFault StackReadOOB
     end.
 
   (* an instruction of Bvm/Model.v on the view of the current activation *)
@@ -518,7 +534,7 @@ Section XExec.
   (* plugin/builtin_functins.rs: len (0) split_head (1) split_tail (2) prepend (3) append (4) and the specialisations
      split_head$arityN (11) split_tail$arityN (12) prepend$arityN (13) append$arityN (14); `st` is the stack, `b` the base
      pointer of the builtin's frame.  Every panic of these functions depends on the value of a handle: Dyn DynHandle. *)
-  Definition arr_builtin (op ew : N) (st : list Z) (b : N) (a : smap arr) : abres :=
+  Definition arr_builtin0 (op ew : N) (st : list Z) (b : N) (a : smap arr) : abres :=
     let dyn := ABFault (Dyn DynHandle) in
     let with_arr (w : Z) (k : arr -> N -> abres) : abres :=
       match arr_get a w with
@@ -582,6 +598,19 @@ Section XExec.
     | _ => ABFault (Dyn DynHandle)
     end.
 
+  (* the unspecialised split_head / split_tail leave 1 + elem_word_size words; their type promises two: true when the
+     array they are about to split has elements of another width than one word *)
+  Definition arr_width_bad (op : N) (st : list Z) (b : N) (a : smap arr) : bool :=
+    ((op =? 1) || (op =? 2)) &&
+    match rd1 st b with
+    | Some w => match arr_get a w with Some ar => negb (w =? 0)%Z && negb (ar_ew ar =? 1) | None => false end
+    | None => false
+    end.
+
+  (* strict: that width is checked *)
+  Definition arr_builtin (op ew : N) (st : list Z) (b : N) (a : smap arr) : abres :=
+    if strict && arr_width_bad op st b a then ABFault (Dyn DynElemWidth) else arr_builtin0 op ew st b a.
+
   (* CallExtFun of an array builtin: call_function around it, then the results move one register down *)
   Definition xextcall (f : fn) (base fr nargs nret : N) (x : xmach) (fl : flocal) : xlres :=
     match xsget base x fr with
@@ -598,6 +627,23 @@ Section XExec.
                   then XNext 1 (set_arr (xset_stack x (firstn (nn (base + fr)) (x_stack x) ++ firstn (nn nret) rs)) a') fl
                   else if (lenN rs =? 1) && (nret <=? nargs) then XLUnsup UnsupNretFallback
                   else XLFault BadNret
+              end
+            else XLFault StackReadOOB
+        | Some ExtSched =>
+            (* SimpleScheduler::schedule_at: get_arg_f64(0), get_arg_raw(1), resolve_closure (get_closure_idx_from_heap:
+               heap.get(idx).expect(..), data[0]), the task is queued; no word is returned *)
+            let b := base + fr + 1 in
+            if (nargs =? 0) || (b + nargs <=? lenN (x_stack x)) then
+              match rd1 (x_stack x) b, rd1 (x_stack x) (b + 1) with
+              | Some tw, Some hw =>
+                  match sm_get (x_heap x) (kraw hw) with
+                  | Some (mkHobj _ (c :: _)) =>
+                      if nret =? 0
+                      then XNext 1 (set_tasks (xset_stack x (firstn (nn (base + fr)) (x_stack x))) (x_tasks x ++ [(tw, c)])) fl
+                      else XLFault BadNret
+                  | _ => XLFault (Dyn DynHandle)
+                  end
+              | _, _ => XLFault StackReadOOB
               end
             else XLFault StackReadOOB
         | _ => xlocal f base (UExt fr nargs nret) x fl
@@ -681,6 +727,8 @@ Section XExec.
                 | XOld (USumRc r n t) => continue (xsumrc k i f base r n t x fl)
                 | XOld (UExt fr nargs nret) => continue (xextcall f base fr nargs nret x fl)
                 | XOld u => continue (xlocal f base u x fl)
+                | XGetArr d ar ix => continue (xgetarr (ew_hint f pc) base d ar ix x fl)
+                | XSetArr ar ix v => continue (xsetarr (ew_hint f pc) base ar ix v x fl)
                 | o => continue (xstep f base ci o x fl)
                 end
             end
@@ -721,7 +769,7 @@ Section XExec.
 End XExec.
 
 (* Machine::new *)
-Definition xmach0 (p : program) : xmach := mkX (mach0 p) sm_new sm_new [] [] sm_new.
+Definition xmach0 (p : program) : xmach := mkX (mach0 p) sm_new sm_new [] [] sm_new [].
 
 (* closures.len(), heap.len() *)
 Definition x_ncls (x : xmach) : N := sm_len (x_cls x).
